@@ -174,7 +174,8 @@ func (c *Real32) POW(a, k *Real32) *Real32 {
 func (c *Real32) SQRT(a *Real32) *Real32 {
   x := a.GetFloat64()
   y := 0.5
-  v0 := math.Pow(x, y)
+  // math.Pow(-Inf, 0.5) is +Inf
+  v0 := math.Sqrt(x)
   f1 := func() (float64) {
     return math.Pow(x, y-1)*y
   }
